@@ -53,6 +53,7 @@ type c11Case struct {
 	Server bool      `json:"server,omitempty"`
 	SOps   []c11SOp  `json:"sops,omitempty"`
 	Open   []int     `json:"open,omitempty"`
+	NoRoot bool      `json:"no_root,omitempty"` // server level: the client announces no workspace folder
 }
 type c11SOp struct {
 	Op   string   `json:"op"`
@@ -435,7 +436,12 @@ func runC10(o opts) error {
 func c11GenServer(r *rng, st *stats) c11Case {
 	// root 0 includes every other file by a plain relative include; the others include nothing
 	n := r.rangeInt(2, 4)
-	c := c11Case{MaxDepth: 50, MaxSize: 10 << 20, Server: true}
+	c := c11Case{MaxDepth: 50, MaxSize: 10 << 20, Server: true, NoRoot: r.chance(40)}
+	if c.NoRoot {
+		st.count("server:no-root")
+	} else {
+		st.count("server:root")
+	}
 	root := incFile{ID: 0, Version: 1}
 	for id := 1; id < n; id++ {
 		root.Dirs = append(root.Dirs, incDir{Form: "rel", Target: id})
@@ -565,7 +571,11 @@ func c11RunServer(c c11Case) (string, error) {
 			return "", err
 		}
 	}
-	srv, _, base := newServerAt(l.dir, nil)
+	rootDir := l.dir
+	if c.NoRoot {
+		rootDir = ""
+	}
+	srv, _, base := newServerAt(rootDir, nil)
 	ctx := context.Background()
 	buffers := map[int]incFile{}
 	uri := func(id int) protocol.DocumentURI { return fileURI(l.path(id)) }
